@@ -2,6 +2,7 @@ package seq
 
 import (
 	"testing"
+	"time"
 
 	"verifharness/core"
 )
@@ -15,4 +16,6 @@ func TestC14(t *testing.T) {
 	keyTypes := []string{"string", "int", "rune", "any", "nan", "ptr"}
 	core.Rapid(r, core.Check[assocCase]{Name: "history", Gen: genAssocCase("map", keyTypes, 40, 8), Exec: execAssocCase}, r.N(3000, 30000))
 	core.DFS(r, core.Check[assocCase]{Name: "small-histories", Gen: genSmallAssoc("map", r.N(3, 4)), Exec: execAssocCase, NoJournal: true}, 0)
+	core.DFS(r, core.Check[longLivedCase]{Name: "long-lived-instance", Gen: genLongLived([]string{"Map"}, r.N(150000, 1200000)), Exec: execLongLived("C14"), NoJournal: true, HangLimit: 300 * time.Second}, 0)
+	core.DFS(r, core.Check[lookupCase]{Name: "class-lookups", Gen: genLookups([]string{"Map"}), Exec: execLookups("C14"), NoJournal: true}, 0)
 }
